@@ -1,0 +1,25 @@
+//go:build verif
+
+// Contracts for the fvc verification-condition generator in /verif (comment-only file; it adds no
+// code to the package and is only seen with -tags verif).
+
+package fiber
+
+//@ fn trusted(c ref, ep int) bool
+//@ fn scheme(c ref, ep int) string
+
+//@ func (*DefaultCtx).IsProxyTrusted
+//@   props C10
+//@   pure
+//@   defines result == trusted(c, epoch)
+//@   ensures no-trustproxy: !c.app.config.TrustProxy ==> result
+
+//@ func (*DefaultCtx).Scheme
+//@   props C10
+//@   defines result == scheme(c, epoch)
+//@   ensures tls-https: isTLS(c.fasthttp, epoch) ==> result == "https"
+//@   ensures untrusted-http: !isTLS(c.fasthttp, epoch) && !trusted(c, epoch) ==> result == "http"
+
+//@ func (*DefaultCtx).Secure
+//@   props C10
+//@   ensures iff-scheme-https: result <==> scheme(c, epoch) == "https"
